@@ -236,6 +236,14 @@ def run(ctx, replay=None):
         vlib.write_ndjson(ep, ets)
         return dict(trees=ep, reqs=eenv["REQOUT"], n=len(ets))
 
+    def raw_slice(styles):
+        """the same resource under non-canonical spellings (".", "..", empty segments, encoded dots) on the request path and
+        in the Destination: the raw universe of C03, judged here for failure atomicity"""
+        import checks_dav_c03
+        rec, rtrees, rawout, nraw = checks_dav_c03.raw_universe(ctx, binp, obs, inputs, info_all, cfg="DavRaw")
+        for stl in styles:
+            rec("raw-id-s%d" % stl, mode="product", trees=rtrees, reqs=rawout, style=stl, conc="id")
+
     def product(name, reqs, treemod=1, treerem=0, conc="id", trees=trees, rootstyle=0):
         files, info = _record(ctx, binp, ctx.path("obs", name), mode="product", trees=trees, reqs=reqs, shards=vlib.NCPU,
                               treemod=treemod, treerem=treerem, conc=conc, rootstyle=rootstyle)
@@ -285,6 +293,7 @@ def run(ctx, replay=None):
             product("deep", d["reqs"], treemod=4, treerem=(ctx.seed + 2) % 4, trees=d["trees"])
             # names that begin or end with dots (not dot segments): containment and path arithmetic must not be fooled by them
             product("main-dots", env["REQOUT"], treemod=8, treerem=ctx.seed % 8, conc="dots")
+            raw_slice([ctx.seed % 4])
         else:
             product("fault", env["FAULTOUT"])
             product("main", env["REQOUT"])
@@ -295,6 +304,7 @@ def run(ctx, replay=None):
             product("main-special", env["REQOUT"], treemod=4, treerem=ctx.seed % 4, conc="special")
             hists(300, 24, ctx.seed)
             hists(150, 24, ctx.seed + 7, conc="dots")
+            raw_slice([0, 1, 2, 3])
     elif prop == "C17":
         # OS limits: every request of the universe with a 300-byte segment ("a") against trees that only map "b":
         # provokes ENAMETOOLONG in every file-system call site; only the leak bit is judged for this universe
